@@ -45,10 +45,10 @@ func init() {
 		Rule: "keys: every pool key (512..4096 bit, 2..5 primes, e=65537) plus keys constructed from pool primes (e in {3,5,17,257,2^31-1}, mixed prime sizes giving modulus lengths = 1 mod 8, " +
 			"random exponents of 32..N+64 bits), each in three private-key shapes (no Precompute, Precompute(), Precomputed filled by hand); operations: PKCS#1 v1.5 and OAEP encryption/decryption incl. session keys " +
 			"and crypto.Decrypter options, PKCS#1 v1.5 signatures over every hash prefix zcrypto knows incl. hash 0 and MD5SHA1, PSS with every salt mode; each output goes to the other implementation's inverse; " +
-			"verifiers are compared on genuine, wrong-input and mutated signatures. non-trivial = a case where the other implementation accepted the output (cross-acceptance) or both verifiers/decrypters reached a " +
+			"verifiers are compared on genuine, wrong-input and mutated signatures and on signatures/ciphertexts of harness-crafted encoded messages (short or damaged padding, wrong block type, trailing garbage, PSS trailer and top bits). non-trivial = a case where the other implementation accepted the output (cross-acceptance) or both verifiers/decrypters reached a " +
 			"verdict on an input derived from a genuine signature/ciphertext; distinct by (key, shape, operation, parameters, message/mutation)",
-		MinNontrivial:         20000,
-		MinNontrivialThorough: 100000,
+		MinNontrivial:         50000,
+		MinNontrivialThorough: 300000,
 		Shards:                16,
 		Env:                   []string{"GODEBUG=rsa1024min=0"},
 		Assumptions: []string{
@@ -1161,6 +1161,209 @@ func (e *env) suitePSS() {
 	}
 }
 
+// suiteCrafted feeds both implementations ciphertexts and signatures whose *encoded message* was built by the
+// harness (raw RSA with math/big on the harness side): padding strings that are too short, wrong block types,
+// missing separators, PKCS#1 v1.5 signature blocks with damaged or shortened padding plus trailing garbage,
+// PSS blocks with a wrong trailer, non-zero bits above emBits, damaged padding. The decision must be the same.
+func (e *env) suiteCrafted() {
+	k := e.k.size()
+	std := e.k.std
+	raw := func(em []byte, exp *big.Int) ([]byte, bool) {
+		v := new(big.Int).SetBytes(em)
+		if v.Cmp(e.k.N) >= 0 {
+			return nil, false
+		}
+		return leftPad(new(big.Int).Exp(v, exp, e.k.N), k), true
+	}
+	nonzero := func(n int) []byte {
+		b := randBytes(e.rng, n)
+		for i := range b {
+			if b[i] == 0 {
+				b[i] = 0x5a
+			}
+		}
+		return b
+	}
+	// --- encryption blocks: 00 || BT || PS || 00 || M
+	if k >= 24 {
+		type blk struct {
+			name  string
+			bt    byte
+			pslen int
+			sep   bool
+		}
+		msgLen := 1 + e.rng.IntN(k-19)
+		var blocks []blk
+		for _, pl := range []int{0, 1, 7, 8, 9} {
+			blocks = append(blocks, blk{fmt.Sprintf("ps-length-%d", pl), 2, pl, true})
+		}
+		blocks = append(blocks, blk{"block-type-1", 1, k - 3 - msgLen, true}, blk{"block-type-0", 0, k - 3 - msgLen, true},
+			blk{"no-separator", 2, k - 2, false}, blk{"valid", 2, k - 3 - msgLen, true})
+		for _, b := range blocks {
+			em := make([]byte, 0, k)
+			em = append(em, 0, b.bt)
+			em = append(em, nonzero(b.pslen)...)
+			if b.sep {
+				em = append(em, 0)
+				em = append(em, randBytes(e.rng, k-len(em))...)
+			}
+			if len(em) != k {
+				continue
+			}
+			ct, ok := raw(em, e.k.E)
+			if !ok {
+				continue
+			}
+			in := []any{"crafted", b.name, "em", em, "ciphertext", ct}
+			var zp []byte
+			var zerr error
+			if !e.z("DecryptPKCS1v15", func() { zp, zerr = zrsa.DecryptPKCS1v15(nil, e.zk, ct) }, in...) {
+				continue
+			}
+			sp, serr := stdrsa.DecryptPKCS1v15(nil, std, ct)
+			e.c.Eval(1)
+			if (zerr == nil) != (serr == nil) || (zerr == nil && !bytes.Equal(zp, sp)) {
+				e.viol("agree:DecryptPKCS1v15:crafted-block:"+b.name, fmt.Sprintf("zcrypto err=%s pt=%x; crypto/rsa err=%s pt=%x", errStr(zerr), zp, errStr(serr), sp), "DecryptPKCS1v15", in...)
+				continue
+			}
+			e.nontrivial("crafted-enc", b.name, em)
+			if zerr == nil {
+				e.c.Count("crafted_block_both_accept", 1)
+			} else {
+				e.c.Count("crafted_block_both_reject", 1)
+			}
+			// session-key entry point on the same block
+			bz := bytes.Repeat([]byte{0xee}, 16)
+			bs := bytes.Repeat([]byte{0xee}, 16)
+			var z2 error
+			if e.z("DecryptPKCS1v15SessionKey", func() { z2 = zrsa.DecryptPKCS1v15SessionKey(nil, e.zk, ct, bz) }, in...) {
+				s2 := stdrsa.DecryptPKCS1v15SessionKey(nil, std, ct, bs)
+				if (z2 == nil) != (s2 == nil) || !bytes.Equal(bz, bs) {
+					e.viol("agree:DecryptPKCS1v15SessionKey:crafted-block:"+b.name, fmt.Sprintf("zcrypto err=%s key=%x; crypto/rsa err=%s key=%x", errStr(z2), bz, errStr(s2), bs), "DecryptPKCS1v15SessionKey", in...)
+				}
+			}
+		}
+	}
+	// --- PKCS#1 v1.5 signature blocks, derived from a genuine one
+	h := []crypto.Hash{crypto.SHA256, crypto.SHA1, crypto.SHA384}[e.item%3]
+	digest := randBytes(e.rng, h.Size())
+	if ssig, err := stdrsa.SignPKCS1v15(nil, std, h, digest); err == nil {
+		em := leftPad(new(big.Int).Exp(new(big.Int).SetBytes(ssig), e.k.E, e.k.N), k)
+		sepAt := bytes.IndexByte(em[2:], 0) + 2
+		type mut struct {
+			name string
+			f    func(b []byte) []byte
+		}
+		muts := []mut{
+			{"genuine", func(b []byte) []byte { return b }},
+			{"padding-byte-fe", func(b []byte) []byte { b[2+e.rng.IntN(sepAt-2)] = 0xfe; return b }},
+			{"padding-byte-00", func(b []byte) []byte { b[3+e.rng.IntN(sepAt-3)] = 0x00; return b }},
+			{"block-type-2", func(b []byte) []byte { b[1] = 2; return b }},
+			{"block-type-0", func(b []byte) []byte { b[1] = 0; return b }},
+			{"separator-01", func(b []byte) []byte { b[sepAt] = 1; return b }},
+			{"digestinfo-length-byte", func(b []byte) []byte { b[sepAt+2]++; return b }},
+			{"digestinfo-null-removed-style", func(b []byte) []byte { b[sepAt+1+len(b[sepAt+1:])-h.Size()-3] ^= 0x05; return b }},
+			{"short-padding-trailing-garbage", func(b []byte) []byte {
+				// 00 01 FF x8 00 DigestInfo garbage (Bleichenbacher 2006 shape)
+				cut := sepAt - 2 - 8
+				if cut <= 0 {
+					return nil
+				}
+				out := append([]byte{}, b[:10]...)
+				out = append(out, b[sepAt:]...)
+				return append(out, randBytes(e.rng, cut)...)
+			}},
+			{"digest-last-byte", func(b []byte) []byte { b[len(b)-1] ^= 0x80; return b }},
+		}
+		for _, m := range muts {
+			b := m.f(append([]byte(nil), em...))
+			if b == nil || len(b) != k {
+				continue
+			}
+			sig, ok := raw(b, e.k.D)
+			if !ok {
+				continue
+			}
+			ok2, acc := e.agreeVerify("VerifyPKCS1v15", "crafted-block:"+m.name,
+				func() error { return zrsa.VerifyPKCS1v15(&e.zk.PublicKey, h, digest, sig) },
+				func() error { return stdrsa.VerifyPKCS1v15(&std.PublicKey, h, digest, sig) },
+				"hash", hashName(h), "digest", digest, "crafted", m.name, "em", b, "signature", sig)
+			if ok2 {
+				e.nontrivial("crafted-pkcs-sig", m.name, b)
+				if acc {
+					e.c.Count("crafted_signature_both_accept", 1)
+				} else {
+					e.c.Count("crafted_signature_both_reject", 1)
+				}
+			}
+		}
+	}
+	// --- PSS blocks, derived from a genuine one
+	emBits := e.k.N.BitLen() - 1
+	emLen := (emBits + 7) / 8
+	ph := []crypto.Hash{crypto.SHA256, crypto.SHA1}[e.item%2]
+	if emLen >= 2*ph.Size()+2 {
+		pd := randBytes(e.rng, ph.Size())
+		for _, sl := range []int{stdrsa.PSSSaltLengthEqualsHash, stdrsa.PSSSaltLengthAuto} {
+			ssig, err := stdrsa.SignPSS(e.reader(), std, ph, pd, &stdrsa.PSSOptions{SaltLength: sl})
+			if err != nil {
+				continue
+			}
+			em := leftPad(new(big.Int).Exp(new(big.Int).SetBytes(ssig), e.k.E, e.k.N), k)
+			off := k - emLen // 1 when emBits is a multiple of 8
+			spare := 8*emLen - emBits
+			type mut struct {
+				name string
+				f    func(b []byte) []byte
+			}
+			muts := []mut{
+				{"genuine", func(b []byte) []byte { return b }},
+				{"trailer-bb", func(b []byte) []byte { b[k-1] = 0xbb; return b }},
+				{"trailer-cc", func(b []byte) []byte { b[k-1] = 0xcc; return b }},
+				{"hash-byte", func(b []byte) []byte { b[k-2] ^= 1; return b }},
+				{"masked-db-middle-byte", func(b []byte) []byte { b[off+(emLen-ph.Size()-1)/2] ^= 0x10; return b }},
+				{"masked-db-first-byte-low-bit", func(b []byte) []byte { b[off] ^= 1; return b }},
+				{"bit-above-emBits", func(b []byte) []byte {
+					if spare == 0 {
+						if off == 0 {
+							return nil
+						}
+						b[0] = 1 // emBits multiple of 8: the extra leading byte must be zero
+						return b
+					}
+					b[off] |= 0x80 >> (spare - 1) // lowest of the bits that must be zero
+					return b
+				}},
+			}
+			for _, m := range muts {
+				b := m.f(append([]byte(nil), em...))
+				if b == nil {
+					continue
+				}
+				sig, ok := raw(b, e.k.D)
+				if !ok {
+					e.c.Count("crafted_pss_block_not_below_N", 1)
+					continue
+				}
+				for vi, vsl := range []int{sl, stdrsa.PSSSaltLengthAuto} {
+					ok2, acc := e.agreeVerify("VerifyPSS", "crafted-block:"+m.name,
+						func() error { return zrsa.VerifyPSS(&e.zk.PublicKey, ph, pd, sig, &zrsa.PSSOptions{SaltLength: vsl}) },
+						func() error { return stdrsa.VerifyPSS(&std.PublicKey, ph, pd, sig, &stdrsa.PSSOptions{SaltLength: vsl}) },
+						"hash", hashName(ph), "digest", pd, "crafted", m.name, "em", b, "signature", sig, "verify_salt_length", vsl)
+					if ok2 {
+						e.nontrivial("crafted-pss-sig", m.name, sl, vi, b)
+						if acc {
+							e.c.Count("crafted_signature_both_accept", 1)
+						} else {
+							e.c.Count("crafted_signature_both_reject", 1)
+						}
+					}
+				}
+			}
+		}
+	}
+}
+
 func (e *env) suiteValidateEqual() {
 	var verr error
 	if e.z("Validate", func() { verr = e.zk.Validate() }) {
@@ -1629,6 +1832,7 @@ func runC23(c *core.Ctx) {
 			e.suiteOAEP()
 			e.suiteSignPKCS1()
 			e.suitePSS()
+			e.suiteCrafted()
 		} else {
 			e.suiteBigE()
 		}
